@@ -3,7 +3,9 @@
 T-route: Matrix22/33/44::inverse()/invert() regenerated from the headers (gjInverse opaque inside Matrix44::inverse),
 theorems in Props/C06.lean against Mathlib's det/adjugate.  H-route: Gauss-Jordan hand model (Model/GaussJordan.lean),
 theorems for every dimension, tied to the real gjInverse bit for bit (drv_gj at Float/Float32 vs harness/corr/c06_inv.cpp).
-Residue (measured, partial): error vs a 113-bit inverse in units of cond*eps*|X| per code path."""
+3x3 Gauss-Jordan additionally: exhaustive small-integer families, three-way (real code / model at Float and over Rat / exact det^-1*adjugate).
+Residue (measured, partial): error vs a 113-bit inverse in units of cond*eps*|X| per code path; the overflow guard of the
+determinant forms against an independent quad specification (identity results are judged, not dropped)."""
 import os, re, random
 from fractions import Fraction
 import lib, troute
@@ -19,7 +21,11 @@ REQUIRED = ["M22_inverse_spec", "M22_inverse_mul", "M22_inverse_singular", "M22_
             "M44_inverse_mul", "M44_inverse_singular", "M44_invert_eq_inverse",
             "gj_forward_invariant", "gj_backward_invariant", "gj_some", "gj_exit_iff_det_zero", "gj_zero_pivot_column",
             "M33_gjInverse_spec", "M33_gjInverse_singular", "M44_gjInverse_spec", "M44_gjInverse_singular",
-            "M33_gjInverseExc_spec", "M44_gjInverseExc_spec"]
+            "M33_gjInverseExc_spec", "M44_gjInverseExc_spec",
+            # what det != 0 gives (true inverse <=> |det| >= 1 or all entries of the exact inverse of the guarded block < 1/tmin)
+            "M22_inverse_true_iff", "M33_inverse_true_iff", "M33_inverse_affine_true_iff", "M44_inverse_affine_true_iff",
+            # when the affine arm and the general arm DECIDE differently
+            "M33_general_guard_iff", "M33_arms_disagree_iff", "M33_arms_disagree_entry", "M44_affine_vs_gj", "M44_arms_disagree"]
 # the three recorded findings (KNOWN_FINDINGS.jsonl): cofactor arms lose cond^2*eps
 COFACTOR_PATHS = ("M33.inverse:cofactor-general-arm", "M44.inverse:cofactor-affine-arm")
 
@@ -121,19 +127,36 @@ def correspondence(chk, binary, n):
         ws = l.split(" ", 1)
         if len(ws) == 2:
             model[ws[0]] = ws[1]
-    mism, perclass = [], {}
+    mism, perclass, reach, wrong_stage = [], {}, {}, []
     for l in cases:
         inp, exp = l.split(" => ")
         tag = inp.split()[0]
         cls = re.sub(r"\d+$", "", tag).rstrip("-") + ":" + exp.split()[0]
-        st = perclass.setdefault(cls, {"cases": 0, "exact_in_Rat": 0, "singular_exit": 0})
+        st = perclass.setdefault(cls, {"cases": 0, "exact_in_Rat": 0, "singular_exit": 0, "exits": {}})
         st["cases"] += 1
         got = model.get(tag, "")
-        body, _, q = got.rpartition(" qeq=")
-        st["exact_in_Rat"] += q == "1"
+        body, _, rest = got.partition(" qeq=")
+        f = dict(kv.split("=", 1) for kv in ("qeq=" + rest).split() if "=" in kv)
+        st["exact_in_Rat"] += f.get("qeq") == "1"
         st["singular_exit"] += "exc=invalidArgument" in exp
         if body != exp.strip():
             mism.append((cls, inp, exp.strip(), body))
+            continue
+        # which loop iteration left through a zero pivot / where rows were exchanged: read off the model's run, which has
+        # just been found bit-identical to the real code on this input
+        ex, sw = f.get("exit", "?"), f.get("swap", "?")
+        st["exits"][ex] = st["exits"].get(ex, 0) + 1
+        nt = exp.split()[0]
+        r = reach.setdefault(nt, {"exits": {}, "swaps": {}})
+        r["exits"][ex] = r["exits"].get(ex, 0) + 1
+        for ch in (sw if sw not in ("-", "?") else ""):
+            r["swaps"][ch] = r["swaps"].get(ch, 0) + 1
+        mc = re.match(r"(zerocol|ex-stage)(\d)", cls)
+        if mc and "nan" not in exp:
+            n_, c_ = int(nt[0]), int(mc.group(2))
+            want = "f%d" % c_ if c_ < n_ - 1 else "b%d" % (n_ - 1)
+            if ex != want:
+                wrong_stage.append((cls, inp, ex, want))
     ok = not mism and rc2 == 0
     chk.oblige("correspondence:gjInverse: Matrix33/44<double,float>::gjInverse(), gjInverse(true) == Lean model at Float/Float32, bit for bit (%d cases)" % len(cases),
                "correspondence", ok, None if ok else [m[0] for m in mism[:5]])
@@ -165,10 +188,117 @@ def correspondence(chk, binary, n):
         what = l.split()[1]
         chk.fail("correspondence:spellings", "self:" + what, "spellings of the same operation disagree: " + what, {"line": l[:600]}, True)
     sing = {k: v["singular_exit"] for k, v in perclass.items() if v["singular_exit"]}
+    # generator reach (audit W5/S5): REQUIRED, not only recorded
+    miss = []
+    for nt in ("3d", "3f", "4d", "4f"):
+        n_ = int(nt[0])
+        r = reach.get(nt, {"exits": {}, "swaps": {}})
+        for ex in ["f%d" % i for i in range(n_ - 1)] + ["b%d" % (n_ - 1), "-"]:
+            if not r["exits"].get(ex):
+                miss.append("%s: no case leaves at %s" % (nt, ex))
+        for i in range(n_ - 1):
+            if not r["swaps"].get(str(i)):
+                miss.append("%s: no row exchange at forward stage %d" % (nt, i))
+        for c_ in range(n_):
+            for fam in ("zerocol%d" % c_, "zerorow%d" % c_, "ex-stage%d" % c_):
+                if not perclass.get(fam + ":" + nt, {}).get("singular_exit"):
+                    miss.append("%s: class %s has no zero-pivot exit" % (nt, fam))
+        for fam in ("ex-perm", "ex-dyadic", "rankdef", "affine", "nearsing", "special"):
+            if not perclass.get(fam + ":" + nt, {}).get("cases"):
+                miss.append("%s: class %s is empty" % (nt, fam))
+    okr = not miss and not wrong_stage and not mism
+    chk.oblige("correspondence:reach: zero-pivot exit at EVERY forward stage and at the last backward stage, a row exchange at every forward stage, "
+               "every zerocol/zerorow/ex-stage class exits, zerocol<c>/ex-stage<c> leave exactly at stage c; 3x3, 4x4, double, float",
+               "correspondence", okr, None if okr else (miss + ["%s left at %s, expected %s" % (w[0], w[2], w[3]) for w in wrong_stage])[:8])
+    if (miss or wrong_stage) and not mism:
+        chk.fail("correspondence:reach", "corr:reach", "the correspondence generator no longer reaches every exit / row exchange of gjInverse "
+                 "(or a matrix whose first zero pivot is at stage c leaves elsewhere)", {"missing": miss[:20],
+                 "wrong_stage": [{"class": w[0], "input": w[1], "left_at": w[2], "expected": w[3]} for w in wrong_stage[:5]]}, bool(wrong_stage))
     chk.extra["gj_correspondence"] = {"cases": len(cases), "mismatches": len(mism), "classes": perclass,
-                                      "zero_pivot_exits_by_class": sing}
+                                      "zero_pivot_exits_by_class": sing, "reach": reach}
     for l in cases[:3]:
         chk.sample({"case": l[:400]})
+
+
+# ---------------------------------------------------------------------------------------------------------------
+# exhaustive small-integer 3x3 families: real gjInverse == model at Float (bit for bit), model at Rat == det^-1 * adjugate
+# (exact integers, computed by the harness), real code within 8 eps of it; every exit / pivot pattern occurs
+
+def exhaustive(chk, binary):
+    from concurrent.futures import ThreadPoolExecutor
+    stride = 1 if chk.thorough else 4
+    rc, out = lib.sh([binary, "exh33", str(stride), str(chk.seed % stride)], timeout=1800)
+    lines = out.split("\n")
+    cases = [l for l in lines if " => " in l]
+    summ = re.search(r"EXH cases=(\d+) singular=(\d+) fails=(\d+) self=(\d+) selffail=(\d+)", out)
+    name = ("exhaustive:gjInverse33: %s 3x3 matrices over {-1,0,1,2} (%s) and all 8000 with first column in {-2..2}^3, other entries in {0,1} "
+            "(double and float): real gjInverse()/(true)/(false)/gjInvert == model at Float bit for bit; model over Rat == det^-1*adjugate "
+            "in exact integers; throws <=> det = 0 <=> identity" % ("ALL 262144" if stride == 1 else "65536 of the 262144", "every index" if stride == 1 else "hash(index) = seed mod 4"))
+    if not summ or not cases:
+        chk.oblige(name, "correspondence", False, out[-500:])
+        chk.fail("exhaustive:gjInverse33", "exh33:run", "exhaustive harness did not run", {"output": out[-2000:]}, False)
+        return
+    ins = [l.split(" => ")[0] for l in cases]
+    nchunk = min(8, lib.NCPU if hasattr(lib, "NCPU") else 4)
+    chunks = [ins[i::nchunk] for i in range(nchunk)]
+    with ThreadPoolExecutor(max_workers=nchunk) as ex:
+        outs = list(ex.map(lambda c: lib.sh([DRV], stdin="\n".join(c) + "\n", timeout=1800), chunks))
+    model = {}
+    for rc2, mout in outs:
+        for l in mout.split("\n"):
+            ws = l.split(" ", 1)
+            if len(ws) == 2:
+                model[ws[0]] = ws[1]
+    bad, patterns, exact_float = [], {}, 0
+    ident = "1,0,0,0,1,0,0,0,1"
+    for l in cases:
+        inp, rest = l.split(" => ")
+        exp, _, spec = rest.partition(" ## ")
+        tag = inp.split()[0]
+        got = model.get(tag, "")
+        body, _, tail = got.partition(" qeq=")
+        f = dict(kv.split("=", 1) for kv in ("qeq=" + tail).split() if "=" in kv)
+        sp = dict(kv.split("=", 1) for kv in spec.split())
+        why = None
+        if body != exp.strip():
+            why = "real code != model at Float/Float32"
+        else:
+            rexc, _, rvals = f.get("rat", ":").partition(":")
+            if sp.get("det") == "0":
+                if rexc != "invalidArgument" or rvals != ident or "exc=invalidArgument" not in exp:
+                    why = "det = 0 but the model over Rat / the real code does not take the singular exit"
+            elif rexc != "ok" or rvals != sp.get("q") or "exc=ok" not in exp:
+                why = "model over Rat != det^-1 * adjugate (exact)"
+        if why:
+            bad.append((why, inp, exp.strip(), got, spec))
+            continue
+        exact_float += f.get("qeq") == "1"
+        k = "%s exit=%s swap=%s" % (exp.split()[0], f.get("exit"), f.get("swap"))
+        patterns[k] = patterns.get(k, 0) + 1
+    # all 4 exits x all 4 exchange patterns that can precede them (3x3): -,0,1,01 with no exit or the backward exit; -,0 before f1; - before f0
+    want = ["3d exit=%s swap=%s" % (e, w) for e, ws in (("-", ("-", "0", "1", "01")), ("b2", ("-", "0", "1", "01")), ("f1", ("-", "0")), ("f0", ("-",))) for w in ws]
+    missing = [w for w in want if not patterns.get(w)]
+    efail = [l for l in lines if l.startswith("EXH-FAIL") or l.startswith("SELF-FAIL")]
+    ok = not bad and not missing and not efail and int(summ.group(3)) == 0 and int(summ.group(5)) == 0 and len(model) == len(cases)
+    chk.oblige(name, "correspondence", ok, None if ok else ([b[0] for b in bad[:3]] + missing[:3] + efail[:3]))
+    chk.count(len(cases) * 3, len(cases) - int(summ.group(2)))
+    seen = set()
+    for why, inp, exp, got, spec in bad:
+        if why in seen:
+            continue
+        seen.add(why)
+        ws = inp.split()
+        chk.fail("exhaustive:gjInverse33", "exh33:gjInverse33:" + ("model-vs-real" if "real code !=" in why else "model-vs-spec"),
+                 "3x3 small-integer matrix: " + why,
+                 {"input_bits_row_major": ws[3:], "type": "double" if ws[2] == "d" else "float", "real_code": exp, "lean_model": got,
+                  "exact_spec (det, det^-1*adjugate)": spec, "replay_cmd": "echo '%s' | lean/.lake/build/bin/drv_gj" % inp}, True)
+    for l in efail[:3]:
+        chk.fail("exhaustive:gjInverse33", "exh33:gjInverse33:real-vs-spec:" + l.split()[1], "real gjInverse on a small-integer 3x3 matrix: " + l.split()[1],
+                 {"line": l[:600]}, True)
+    if missing and not bad:
+        chk.fail("exhaustive:gjInverse33", "exh33:reach", "an exit / row-exchange pattern of the 3x3 Gauss-Jordan is no longer reached", {"missing": missing}, False)
+    chk.extra["gj33_exhaustive"] = {"cases": len(cases), "stride": stride, "singular": int(summ.group(2)), "in_process_spelling_checks": int(summ.group(4)),
+                                    "float_result_equals_model_over_Rat (no rounding at all)": exact_float, "exit_and_exchange_patterns": patterns}
 
 
 # ---------------------------------------------------------------------------------------------------------------
@@ -202,6 +332,47 @@ def residue(chk, binary, n):
             text = "residue:accuracy:%s: error <= %g*cond*eps*|X| up to cond 1/eps, finite below 1/eps^2 (%d judged)" % (name, CBOUND, p["judged"])
         chk.oblige(text, "residue", p["fails"] == 0 and p["nonfinite"] == 0 and p["cases"] > 0,
                    None if p["fails"] == 0 else {"failures": p["fails"], "worst": {k: v for k, v in p.items() if k.startswith("worst")}})
+    # the overflow guard against its independent float-level specification (harness: guardSpec); identity results are
+    # accepted only where that spec asks for them or cannot decide
+    guards = {}
+    for m in re.finditer(r"RGUARD (\S+) (d|f) n=(\d+) must_divide=(\d+) must_identity=(\d+) band=(\d+) ties=(\d+) unique_fail_positions=(\d+)/(\d+) fails=(\d+)", out):
+        g = guards.setdefault(m.group(1), {"cases": 0, "spec_says_divide": 0, "spec_says_identity": 0, "undecided_band": 0, "exact_ties": 0, "fails": 0, "by_type": {}})
+        for k, i in (("cases", 3), ("spec_says_divide", 4), ("spec_says_identity", 5), ("undecided_band", 6), ("exact_ties", 7), ("fails", 10)):
+            g[k] += int(m.group(i))
+        g["by_type"][m.group(2)] = {"divide": int(m.group(4)), "identity": int(m.group(5)), "ties": int(m.group(7)),
+                                    "positions_hit_as_the_only_failing_cofactor": int(m.group(8)), "positions": int(m.group(9))}
+    for name in ("M22.inverse", "M33.inverse:affine-arm", "M33.inverse:cofactor-general-arm", "M44.inverse:cofactor-affine-arm"):
+        g = guards.get(name, {"cases": 0, "fails": 1, "by_type": {}, "spec_says_divide": 0, "spec_says_identity": 0})
+        bt = g["by_type"]
+        reach = all(bt.get(t, {}).get("divide", 0) > 0 and bt.get(t, {}).get("identity", 0) > 0 and bt.get(t, {}).get("ties", 0) > 0
+                    and bt.get(t, {}).get("positions", 0) > 0 and bt[t]["positions_hit_as_the_only_failing_cofactor"] == bt[t]["positions"] for t in ("d", "f"))
+        ok = g["fails"] == 0 and reach
+        chk.oblige("residue:guard:%s: identity <=> |det| < 1 and |det|/min() <= some |cofactor| (quad spec with rounding band; %d must-divide, %d must-be-identity, "
+                   "every cofactor position hit as the only failing one, exact ties)" % (name, g["spec_says_divide"], g["spec_says_identity"]),
+                   "residue", ok, None if ok else g)
+        if g["fails"] == 0 and not reach:
+            chk.fail("residue:guard:" + name, "residue:guard-reach:" + name, "the guard-edge generator no longer reaches both verdicts / every cofactor position for " + name, g, False)
+    for name in ("M33.gjInverse", "M44.gjInverse", "M44.inverse:nonaffine-arm"):
+        g = guards.get(name, {"fails": 0})
+        chk.oblige("residue:guard:%s: no zero-pivot exit (identity) for cond < 1/(64 eps)" % name, "residue", g["fails"] == 0 and paths.get(name, {}).get("judged", 0) > 0,
+                   None if g["fails"] == 0 else g)
+    jumps = {}
+    for m in re.finditer(r"RJUMP affine-jump:(\S+) (d|f) pairs=(\d+) one_side_identity=(\d+) arms_disagree_as_in_theorem=(\d+) perturbation_crossed_threshold=(\d+) band=(\d+) unexplained=(\d+) within_cond_1/eps=(\d+)", out):
+        j = jumps.setdefault(m.group(1), {"pairs": 0, "one_side_identity": 0, "arms_disagree_as_in_theorem": 0, "perturbation_crossed_threshold": 0, "band": 0, "unexplained": 0, "within_cond_1/eps": 0})
+        for k, i in zip(list(j.keys()), range(3, 10)):
+            j[k] += int(m.group(i))
+    for fn, thm in (("M33.inverse", "M33_arms_disagree_iff"), ("M44.inverse", "M44_affine_vs_gj")):
+        j = jumps.get(fn, {"one_side_identity": 0, "unexplained": 1, "within_cond_1/eps": 0, "arms_disagree_as_in_theorem": 0})
+        ok = j["unexplained"] == 0 and j["within_cond_1/eps"] == 0 and j["arms_disagree_as_in_theorem"] > 0
+        chk.oblige("residue:affine-jump-identity:%s: pairs with the identity on ONE side only are counted, not skipped (%d): each side is what the spec of its arm decides "
+                   "(%d are the arms disagreeing on the affine matrix itself as characterised by %s, %d the perturbation crossing the threshold, %d in the rounding band), "
+                   "none with cond <= 1/eps" % (fn, j["one_side_identity"], j["arms_disagree_as_in_theorem"], thm, j.get("perturbation_crossed_threshold", 0), j.get("band", 0)),
+                   "residue", ok, None if ok else j)
+        if j["unexplained"] == 0 and j["within_cond_1/eps"] == 0 and not ok:
+            chk.fail("residue:affine-jump-identity:" + fn, "residue:jump-reach:" + fn, "no pair exhibits the exact-arithmetic disagreement of the two arms any more", j, False)
+    resid = {}
+    for m in re.finditer(r"RRESIDUAL (\S+) (d|f) worst=(\S+)", out):
+        resid.setdefault(m.group(1), {})["double" if m.group(2) == "d" else "float"] = float(m.group(3))
     for key, ls in fails.items():
         l = ls[0]                        # the fixed (unseeded) witnesses are judged first: canonical replay per key
         f = dict(re.findall(r"(\w[\w/()*|'-]*)=(\S+)", l))
@@ -218,19 +389,28 @@ def residue(chk, binary, n):
             what = "%s returns inf/nan for a matrix with cond < 1/eps^2" % path
         elif kind == "spelling":
             what = "%s: the `bool singExc` body called with false returns something else than the noexcept body (duplicated code diverged)" % path
+        elif kind == "guard":
+            what = ("%s: the float code and the independent quad specification of the overflow guard disagree on whether the identity must be returned "
+                    "(|det| >= 1 or |det|/numeric_limits<T>::min() above EVERY cofactor of the block => adj/det; |det| < 1 and at or below one => identity)" % path)
+        elif kind == "affine-jump-identity":
+            what = "%s: an affine matrix and its one-ulp perturbation with cond <= 1/eps: one side returns the identity, the other does not" % path
+        elif kind == "residual":
+            what = "%s: M*X or X*M further from the identity than %g*N*cond^2*eps" % (path, CBOUND)
         elif kind == "lattice":
             what = ("%s on a small-integer matrix: an entry that is ONE division of exact quantities is not the correctly rounded adj/det "
                     "(or a singular integer matrix did not give the identity)" % path)
         else:
             what = "residue failure " + key
-        chk.fail(key.replace("residue:nonfinite:", "residue:accuracy:"), key, what + ": " + l[14 + len(key):260],
+        chk.fail(key.replace("residue:nonfinite:", "residue:accuracy:").replace("residue:residual:", "residue:accuracy:"), key, what + ": " + l[14 + len(key):260],
                  {"line": l[:1500], "matrix_row_major_decimal": dec.group(1).split(",") if dec else None,
                   "element_type": "double" if " d " in l[:120] else "float", "ratio_and_cond": {k: v for k, v in f.items() if k in ("cond", "bound", "class")},
                   "replay_cmd": ".build/bin/c06_inv residue %d %d %g | grep '%s'" % (chk.seed, n, CBOUND, key)}, True)
     chk.residues["C06"] = {
         "unit": "max |X_impl - X_113bit| / (cond_inf(M) * eps * |X|_inf); bound c = %g (affine jump: 2c)" % CBOUND,
         "per_code_path": paths, "evaluations": int(summ.group(1)),
-        "branch_hits": {"|det|>=1": int(summ.group(4)), "|det|<1 (guarded)": int(summ.group(5)), "guard returned identity": int(summ.group(6))},
+        "guard_vs_independent_quad_spec": guards, "affine_jump_pairs_with_identity_on_one_side": jumps,
+        "worst max(|MX-I|,|XM-I|)/(N*cond^2*eps) per path (bound %g; implied by the entrywise bound)" % CBOUND: resid,
+        "branch_hits": {"|det|>=1": int(summ.group(4)), "|det|<1 (guarded)": int(summ.group(5)), "identity accepted as clean singular outcome among cond <= 1/eps (spec asks for it or cannot decide)": int(summ.group(6))},
         "finite_results_checked_below_cond_1/eps^2": int(summ.group(7)), "integer_lattice_matrices": int(summ.group(8)),
         "excluded_from_the_finiteness_claim (a non-zero entry below eps^2*max|entry|, e.g. the denormal one-ulp perturbation of a 0)": int(summ.group(9)),
         "classes": dict(kv.split("=") for kv in (re.search(r"RCLASSES (.*)", out).group(1).split() if re.search(r"RCLASSES (.*)", out) else []))}
@@ -241,16 +421,23 @@ def run(chk):
                    "translator harness/sym (TV each run, bitwise at float and double; emitted Lean text re-evaluated at Rat)",
                    "hand model Model/GaussJordan.lean, tied to ImathMatrix.h gjInverse (4 bodies) by bitwise correspondence at double and float "
                    "(Lean Float/Float32 = the same SSE2 operations as g++ -O1 -ffp-contract=off)",
-                   "__float128 full-pivoting Gauss-Jordan as the oracle of the measured residue"]
+                   "__float128 full-pivoting Gauss-Jordan as the oracle of the measured residue",
+                   "harness/corr/c06_inv.cpp guardSpec: determinant and cofactors in __float128 with rounding/underflow intervals (16 eps * sum|products| "
+                   "+ 16 denorm_min) as the float-level specification of the overflow guard; exact 64-bit integer det/adjugate for the exhaustive 3x3 families"]
     chk.assumptions = ["rounding: NOT proved; the accuracy clause (c*cond*eps*|X|, finiteness below 1/eps^2, no jump at the affine test) is MEASURED "
                        "per code path against a 113-bit inverse (partial)",
-                       "theorems are over an arbitrary ordered field with tmin = numeric_limits<T>::min() a parameter"]
+                       "theorems are over an arbitrary ordered field with tmin = numeric_limits<T>::min() a parameter; WHICH constant the code reads is "
+                       "pinned at extraction (tools/pins) and measured by the guard specification (min() hard-wired there)",
+                       "the guard specification decides only outside its rounding band (band sizes are in the evidence); Gauss-Jordan: an identity "
+                       "result is a failure only for cond < 1/(64 eps)"]
     chk.rule = ("theorems: all matrices. correspondence: dyadic matrices with power-of-two pivots (exact), signed scaled permutations (swap at every "
                 "stage), random / integer / graded, zero column or row at each position, LU products with a zero pivot first met at each stage, "
                 "rank-deficient, affine, nearly singular, signed zeros/denormals/huge/inf/nan; 3x3 and 4x4, double and float. residue: well "
                 "conditioned, U*diag(sigma)*V with three singular-value profiles and cond up to 1/eps (and up to 1/eps^2 for finiteness), "
                 "row-scaled dyadic, |det| within a few ulps of 1, affine with one-ulp perturbation of the last column, integer lattice; "
-                "fixed witnesses first")
+                "guard-edge: one row of a well-conditioned block scaled so that |det|/min() is above all / between the two largest / below / within "
+                "ulps of the cofactors (general and affine arms, every cofactor position), exact ties of the guard; fixed witnesses first. "
+                "exhaustive: all 3x3 matrices over {-1,0,1,2} (quick: a hashed quarter) + first column {-2..2}^3 x {0,1}^6")
     bins = troute.build_extractors(chk, [dict(name="sym_c06", source="sym/sym_c06.cpp"), dict(name="c06_inv", source="corr/c06_inv.cpp")])
     rcd, outd = lib.lake_build(["drv_gj"])
     chk.oblige("build:drv_gj", "build", rcd == 0, None if rcd == 0 else outd[-800:])
@@ -267,6 +454,8 @@ def run(chk):
             correspondence(chk, bins["c06_inv"], 2000 if chk.thorough else 150)
         else:
             chk.fail("build:drv_gj", "build:drv_gj", "model driver does not build", {"output": outd[-3000:]}, False)
+        if rcd == 0:
+            exhaustive(chk, bins["c06_inv"])
         residue(chk, bins["c06_inv"], 40000 if chk.thorough else 3000)
     if chk.thorough:
         chk.leanchecker(MODULE)
